@@ -16,6 +16,7 @@ import (
 	"encoding/json"
 	"fmt"
 	"math"
+	"math/big"
 	"os"
 	"path/filepath"
 	"sort"
@@ -305,8 +306,10 @@ func genVal(r *gen.Rand) PVal {
 		return PVal{Kind: 'i', Int: n, Text: strconv.FormatInt(n, 10) + "i"}
 	case 3, 4, 5:
 		lit := genFloatLit(r)
-		f, _ := strconv.ParseFloat(lit, 64)
-		return PVal{Kind: 'f', Lit: lit, FBits: math.Float64bits(f), Text: lit}
+		if r.Chance(1, 6) {
+			lit = genHardFloat(r)
+		}
+		return floatVal(r, lit)
 	case 6:
 		b := r.Bool()
 		var t string
@@ -326,6 +329,66 @@ func genVal(r *gen.Rand) PVal {
 		}
 		return PVal{Kind: 's', Str: s, Text: "\"" + escStr(r, s, r.Chance(1, 3)) + "\""}
 	}
+}
+
+// floatVal: a float field written as the literal, one time in eight with the documented 'f' suffix.
+func floatVal(r *gen.Rand, lit string) PVal {
+	f, _ := strconv.ParseFloat(lit, 64)
+	text := lit
+	if r.Chance(1, 8) {
+		text += "f"
+	}
+	return PVal{Kind: 'f', Lit: lit, FBits: math.Float64bits(f), Text: text}
+}
+
+// genHardFloat: the hard cases of decimal -> binary64 conversion: the exact decimal expansion of the midpoint between
+// two neighbouring doubles (a tie: must go to the even one), and the decimals just above and just below it.
+func genHardFloat(r *gen.Rand) string {
+	var x float64
+	for {
+		bits := r.Uint64()&(1<<52-1) | uint64(1023+r.Range(-40, 60))<<52
+		if r.Chance(1, 6) {
+			bits = r.Uint64()&(1<<52-1) | uint64(1023+r.Range(-1022, -1000))<<52 // near the subnormal boundary: long expansions
+			if r.Bool() {
+				bits = uint64(r.Range(1, 1<<20)) // subnormals
+			}
+		}
+		x = math.Float64frombits(bits)
+		if !math.IsInf(x, 0) && !math.IsNaN(x) {
+			break
+		}
+	}
+	y := math.Nextafter(x, math.Inf(1))
+	if math.IsInf(y, 0) {
+		y, x = x, math.Nextafter(x, 0)
+	}
+	mid := new(big.Float).SetPrec(2200).SetFloat64(x)
+	mid.Add(mid, new(big.Float).SetPrec(2200).SetFloat64(y))
+	mid.Quo(mid, big.NewFloat(2))
+	s := mid.Text('f', 1200)
+	if strings.Contains(s, ".") {
+		s = strings.TrimRight(s, "0")
+		s = strings.TrimSuffix(s, ".")
+	}
+	switch r.Intn(4) {
+	case 0: // the tie itself
+	case 1: // just above
+		if strings.Contains(s, ".") {
+			s += "0000001"
+		} else {
+			s += ".0000001"
+		}
+	case 2: // just below: the expansion of a midpoint ends in 5 (or is an integer)
+		if strings.HasSuffix(s, "5") && strings.Contains(s, ".") {
+			s = s[:len(s)-1] + "4999999"
+		}
+	default: // a neighbour written with 17 significant digits
+		s = strconv.FormatFloat(x, 'e', 16, 64)
+	}
+	if r.Chance(1, 4) {
+		s = "-" + s
+	}
+	return s
 }
 
 // genBsqString: string values (or raw quoted-string bodies) over an alphabet biased to runs of 1..6 backslashes next to
@@ -670,6 +733,35 @@ func caseValid(r *gen.Rand, idx int) {
 	emit(c)
 }
 
+// caseFloats: a line of six float fields - the decimal -> binary64 conversion the parser calls, checked against
+// strconv.ParseFloat here and against the exact rational arithmetic of Model.dec2f_exact in the model evaluation.
+func caseFloats(r *gen.Rand, idx int) {
+	p := Point{Name: "fl", HasTs: true, Ts: int64(r.Intn(100000))}
+	for i := 0; i < 6; i++ {
+		var v PVal
+		for {
+			if i < 3 {
+				v = floatVal(r, genHardFloat(r))
+			} else {
+				v = floatVal(r, genFloatLit(r))
+			}
+			if !math.IsInf(math.Float64frombits(v.FBits), 0) {
+				break
+			}
+		}
+		p.Fields = append(p.Fields, PField{K: fmt.Sprintf("f%d", i), V: v})
+	}
+	text := render(r, p)
+	rows, isErr := runImpl([]byte(text), 1)
+	c := &Case{I: idx, Class: "floats", Mult: 1, In: hx(text), Text: text, Err: isErr, Rows: rows, Judged: true, Nontrivial: true}
+	if isErr || len(rows) != 1 {
+		c.Sub, c.Judged = "valid-refused", false
+	} else {
+		c.Oracle = comparePoint(p, rows[0], 1)
+	}
+	emit(c)
+}
+
 func caseBad(r *gen.Rand, idx int) {
 	b := genBad(r)
 	rows, isErr := runImpl([]byte(b.text), 1)
@@ -921,7 +1013,9 @@ func main() {
 	}
 	r := gen.FromEnv(6)
 	for k := 0; k < n; k++ {
-		switch x := r.Intn(25); {
+		switch x := r.Intn(26); {
+		case x == 25:
+			caseFloats(r, idx)
 		case x < 9:
 			caseValid(r, idx)
 		case x < 13:
